@@ -142,9 +142,17 @@ func (c *Ctx) EvalN(n int) {
 // Nontrivial records the hash of a case that is non-trivial by the property's rule.
 func (c *Ctx) Nontrivial(h uint64) {
 	c.mu.Lock()
-	c.nontrivial[h] = struct{}{}
+	// The set is kept exactly up to a cap per worker; beyond it new hashes are
+	// dropped, so the reported number is a lower bound (never an overcount).
+	if len(c.nontrivial) < maxNontrivialPerWorker {
+		c.nontrivial[h] = struct{}{}
+	} else if _, ok := c.nontrivial[h]; !ok {
+		c.counters["nontrivial.dropped_beyond_cap"]++
+	}
 	c.mu.Unlock()
 }
+
+const maxNontrivialPerWorker = 250000
 
 // Sample keeps up to three literal cases per worker for the evidence file.
 func (c *Ctx) Sample(v interface{}) {
